@@ -6,12 +6,14 @@ from ..summary import Item, items, is_ok, bv
 from .c03 import base_assume
 
 ID = 'C01'
-ENGINE_B = [{'template': 't_layout', 'kinds': ['layout_'], 'max_quick': 12, 'max_thorough': 64},
+ENGINE_B = [{'template': 't_layout', 'kinds': ['layout_'], 'max_quick': 12, 'max_thorough': 64,
+             # a single over-aligned field, a packed type, explicit addresses with gaps
+             'fixed': [[8, 1, 0, 0, 1, 16, 0, 3, 2, 4, 0, 0, 0, 0, 1], [8, 2, 1, 24, 0, 0, 1, 0, 0, 0, 1, 3, 0, 0, 1, 0, 3, 0, 1, 9, 0, 0, 1]]},
             # base sub-objects and vftable pointers (fixed witness programs from the inheritance / equivalence templates)
             {'template': 't_equiv', 'kinds': ['layout_'], 'max_quick': 4, 'max_thorough': 4,
              'fixed': [[8, 8, 16, 8, 8, 0, 0, 0, 1, 0, 0, 0, 0, 0, 1], [8, 8, 16, 8, 16, 0, 0, 0, 0, 1, 0, 0, 1, 0, 1], [8, 8, 16, 8, 0, 0, 1, 0, 0, 0, 0, 0, 0, 0, 0]]},
             {'template': 't_inherit', 'kinds': ['layout_'], 'max_quick': 4, 'max_thorough': 4,
-             'fixed': [[8, 1, 1, 1, 1, 0, 1, 0, 0, 0, 0, 0, 1, 0, 0, 0, 1], [8, 0, 1, 1, 2, 0, 1, 1, 0, 0, 0, 0, 1, 0, 0, 0, 0]]}]
+             'fixed': [[8, 1, 1, 1, 1, 0, 1, 0, 0, 0, 0, 0, 1, 0, 0, 0, 1], [8, 0, 1, 1, 2, 0, 1, 0, 0, 0, 0, 0, 1, 0, 0, 0, 0]]}]
 EXPLANATION = ('t_layout run symbolically; on every accepted leaf the region list pyxis produced is laid out with an SMT model of '
                'repr(C) (each field at align_up(previous end, field alignment); struct alignment = declared; packed => 1) and '
                'the solver must refute: a named field missing from the struct, a named field at an offset different from its '
